@@ -15,6 +15,7 @@ pub fn evaluate(steps: &[Step], stages: &[(&'static str, Schedule)], out: &Value
         "C08": c08(steps, stages),
         "C16": c16(stages, out),
         "C07": c07_stages(steps, stages),
+        "C15": c15(stages),
     })
 }
 
@@ -162,4 +163,71 @@ fn c07_stages(steps: &[Step], stages: &[(&'static str, Schedule)]) -> Value {
         }
     }
     json!({"viol": viol})
+}
+
+/// C15, optimiser part: the transition optimisation returns cycles over the same vehicles, internally
+/// exact, whose (violation, counter) is not worse than its input.
+fn c15(stages: &[(&'static str, Schedule)]) -> Value {
+    let mut viol: Vec<Value> = vec![];
+    let (ls, opt) = match (find(stages, "local_search"), find(stages, "optimized_transitions")) {
+        (Some(a), Some(b)) => (a, b),
+        _ => return json!({"nt": false, "viol": [["machinery", "stage snapshots missing"]]}),
+    };
+    let nw = ls.get_network();
+    let mut changed = false;
+    for vt in types(ls) {
+        let tin = ls.next_day_transition_of(vt);
+        let tout = opt.next_day_transition_of(vt);
+        let vin: BTreeSet<String> = tin.cycles_iter().flat_map(|c| c.iter().map(|v| v.to_string()).collect::<Vec<_>>()).collect();
+        let mut seen = BTreeSet::new();
+        let mut dup = false;
+        for c in tout.cycles_iter() {
+            for v in c.iter() {
+                if !seen.insert(v.to_string()) {
+                    dup = true;
+                }
+            }
+        }
+        if dup || seen != vin {
+            viol.push(json!(["optimiser-vehicle-set", format!("type {}: optimiser was given {:?} and returned {:?} (duplicates: {})", vt, vin, seen, dup)]));
+            continue;
+        }
+        // internal exactness: counters recomputed from the tours' own counters and the depot transfers
+        let (mut tv, mut tc) = (0i64, 0i64);
+        for c in tout.cycles_iter() {
+            let vs: Vec<_> = c.iter().collect();
+            let mut cnt = 0i64;
+            for (i, v) in vs.iter().enumerate() {
+                let t = ls.tour_of(*v).unwrap();
+                let n = ls.tour_of(vs[(i + 1) % vs.len()]).unwrap();
+                cnt += t.maintenance_counter()
+                    + nw.dead_head_distance_between(t.end_depot().unwrap(), n.start_depot().unwrap()).in_meter().unwrap_or(model::base_types::INF_DISTANCE) as i64;
+            }
+            if c.maintenance_counter() != cnt {
+                viol.push(json!(["optimiser-cycle-counter", format!("type {} cycle {:?}: counter {}, recomputed {}", vt, vs, c.maintenance_counter(), cnt)]));
+            }
+            tv += cnt.max(0);
+            tc += cnt;
+        }
+        if tout.maintenance_violation() != tv || tout.maintenance_counter() != tc {
+            viol.push(json!(["optimiser-totals", format!("type {}: totals ({}, {}), recomputed ({}, {})", vt, tout.maintenance_violation(), tout.maintenance_counter(), tv, tc)]));
+        }
+        for v in tout.cycles_iter().flat_map(|c| c.iter().collect::<Vec<_>>()) {
+            let ok = std::panic::catch_unwind(std::panic::AssertUnwindSafe(|| tout.get_successor_of(v))).is_ok();
+            if !ok {
+                let _ = crate::pool::take_last_panic();
+                viol.push(json!(["optimiser-lookup", format!("type {}: get_successor_of({}) panics on the optimised transition", vt, v)]));
+            }
+        }
+        let (oi, oo) = ((tin.maintenance_violation(), tin.maintenance_counter()), (tout.maintenance_violation(), tout.maintenance_counter()));
+        if oo > oi {
+            viol.push(json!(["optimiser-worsens", format!("type {}: (violation, counter) went from {:?} to {:?}", vt, oi, oo)]));
+        }
+        let a: Vec<Vec<String>> = tin.cycles_iter().map(|c| c.iter().map(|v| v.to_string()).collect()).collect();
+        let b: Vec<Vec<String>> = tout.cycles_iter().map(|c| c.iter().map(|v| v.to_string()).collect()).collect();
+        if a != b {
+            changed = true;
+        }
+    }
+    json!({"nt": changed, "viol": viol})
 }
